@@ -1434,6 +1434,10 @@ impl PayloadEncode for ScmpMessageUnknown {
             );
 
             let range = layout.message_specific_data_rng().aligned_byte_range();
+            // The bytes between the checksum and the message specific data are not carried by the
+            // model: write them as zero instead of leaving whatever the buffer contained.
+            buf.get_unchecked_mut(L::CHECKSUM_RNG.end / 8..range.start)
+                .fill(0);
             let data_len = range.end - range.start;
             buf.get_unchecked_mut(range)
                 .copy_from_slice(&self.message_specific_data[..data_len]);
